@@ -20,16 +20,21 @@ RULE = ('integrands on Square/Cube for LinearForm / BilinearForm over scalar, ve
         'argument, argument in a denominator; edits that VANISH when two same-kind components of a product argument are '
         'identified: a*(a-b), (op a - op b)**2, a**2/b, dot(A-B, A); integrands, or single integrals of a domain + '
         'boundary sum, in which one argument group does not occur at all: no test function, no trial function, pure '
-        'coefficient / coordinate integrands).  A fixed corpus (u1*(u1-u2)*v1, f*(v1-v2)**2, x*y without test function, '
-        'x*v without trial function, ...) runs first on every seed.  One case = one constructor call; non-trivial = '
+        'coefficient / coordinate integrands; sums over two regions whose integrands are lin + N and lin - N, N '
+        'non-linear or constant: each region non-linear, cancelling only across regions).  Linear ones also with '
+        'top-level summands that are individually non-linear but cancel by a polynomial identity inside one integrand '
+        '((a+c)**2 - a**2 - c**2, a*(a+c) - a**2, ...).  A fixed corpus (u1*(u1-u2)*v1, f*(v1-v2)**2, x*y without test '
+        'function, x*v without trial function, int_Om(f*v+v**2)+int_Ga(x*v-v**2), (v+f)**2-v**2-f**2, ...) runs first on '
+        'every seed.  One case = one constructor call; non-trivial = '
         'every case (the verdict is computed by substitution, re-evaluation and expansion); distinct by request line')
 ASSUMPTIONS = [
     'the model compares by polynomial normal form over maximal non-arithmetic sub-terms (verified normaliser); sympy '
     'uses expand(): agreement of the two is what the correspondence checks',
     'substitution re-runs the operator constructors (Model/Calc.lean, property C02) and the linear part of dx / F[i]',
     'ground truth of the oracle: known by construction (a sum of terms each linear in one component of every argument '
-    'group is linear; one added term of a listed non-linear class, or the absence of an argument group, makes it '
-    'non-linear), and confirmed case by case by additivity and homogeneity of the classical value of the integrand '
+    'group is linear, also after adding summands that cancel by a polynomial identity; one added term of a listed '
+    'non-linear class in some region — even if compensated in ANOTHER region — or the absence of an argument group, '
+    'makes it non-linear), and confirmed case by case by additivity and homogeneity of the classical value of the integrand '
     'for two draws of polynomial functions (joint linearity in all components of a product argument; the components '
     'get independent polynomials); a case on which the two disagree is not judged',
 ]
@@ -244,6 +249,32 @@ def argfree_case(W, rng, bilinear, tests, trials):
     return expr, 'argfree:no-%s' % missing
 
 
+def cancelling_terms(W, rng, tests, trials):
+    """a sum of top-level terms, each of them NOT linear in one argument group, whose non-linear parts cancel: the sum is
+    linear in both groups (polynomial identities only: what expansion decides).  The common factor is distributed by
+    hand so that the terms stay separate summands of the integrand."""
+    if trials and rng.random() < 0.5:
+        grp, oth = trials, tests
+    else:
+        grp, oth = tests, trials
+    la = lin_in_group(W, rng, grp)
+    o = lin_in_group(W, rng, oth) if oth else W.m['S'].One
+    c = rng.choice([W.f, W.x[0], W.k1, W.g + 1, W.m['S'](2), W.f * W.x[1]])
+    k = rng.random()
+    if k < 0.25:
+        return (la + c) ** 2 * o - la ** 2 * o - c ** 2 * o                       # = 2 c la o
+    if k < 0.45:
+        return la * (la + c) * o - la ** 2 * o                                    # = c la o
+    if k < 0.65:
+        return la * o * (1 + c * la) - c * la ** 2 * o                            # = la o
+    if k < 0.80:
+        lb = lin_in_group(W, rng, grp)
+        return (la + lb) ** 2 * o - (la - lb) ** 2 * o - 4 * la * lb * o          # = 0
+    if k < 0.90:
+        return (la + c) ** 3 * o - la ** 3 * o - 3 * c * la ** 2 * o - c ** 3 * o  # = 3 c**2 la o
+    return c * la ** 2 * o + la * (o - c * la * o)                                # = la o
+
+
 def make_case(W, rng):
     """returns dict(kind, args…, expr, label) — the integral expression of a candidate form; `label` is the ground truth
     by construction: 'linear', or the class of the one edit that makes the integrand non-linear"""
@@ -265,6 +296,40 @@ def make_case(W, rng):
 
     body = sum((term() for _ in range(rng.choice([1, 2, 2, 3]))), m['S'].Zero)
     label = 'linear'
+    r0 = rng.random()
+    if r0 < 0.07:
+        # non-linear parts that cancel ACROSS two regions: each integrand is non-linear, only their sum is linear
+        if bilinear and rng.random() < 0.5:
+            lab, N = nonlinear_edit(W, rng, trials, tests)
+            lab = 'trial:' + lab
+        else:
+            lab, N = nonlinear_edit(W, rng, tests, trials)
+            lab = 'test:' + lab
+        bt = bnd_factor(W, rng.choice(tests)) * rng.choice([1, W.k1, W.f])
+        if bilinear:
+            bt = bt * bnd_factor(W, rng.choice(trials))
+        if rng.random() < 0.7:
+            expr = integral(W.domain, body + N) + integral(rng.choice(W.faces + [W.bnd]), bt - N)
+        else:
+            g1, g2 = rng.sample(W.faces, 2)
+            expr = integral(W.domain, body) + integral(g1, bt + N) + integral(g2, bt - N)
+        return dict(bilinear=bilinear, trials=trials, tests=tests, expr=expr, label='cross-region-cancel:' + lab)
+    if r0 < 0.17:
+        # non-linear terms that cancel INSIDE one integrand: the integrand is linear
+        body = body + cancelling_terms(W, rng, tests, trials)
+        label = 'linear:cancelling-terms'
+        expr = integral(W.domain, body)
+        if rng.random() < 0.3:
+            bt = bnd_factor(W, rng.choice(tests)) * rng.choice([1, W.k1, W.f])
+            if bilinear:
+                bt = bt * bnd_factor(W, rng.choice(trials))
+            if rng.random() < 0.5:
+                # the boundary integrand too
+                t2 = bnd_factor(W, rng.choice(tests))
+                o2 = bnd_factor(W, rng.choice(trials)) if bilinear else m['S'].One
+                bt = bt + (t2 + W.k1) * (t2 - W.k1) * o2 - t2 ** 2 * o2 + W.k1 ** 2 * o2
+            expr = expr + integral(rng.choice(W.faces + [W.bnd]), bt)
+        return dict(bilinear=bilinear, trials=trials, tests=tests, expr=expr, label=label)
     if rng.random() < 0.45:
         if bilinear and rng.random() < 0.5:
             label, extra = nonlinear_edit(W, rng, trials, tests)
@@ -305,6 +370,8 @@ def corpus_cases(W):
     m = W.m
     I = lambda e: m['integral'](W.domain, e)
     Ib = lambda e: m['integral'](W.bnd, e)
+    Ig = lambda e: m['integral'](W.faces[0], e)
+    Ig2 = lambda e: m['integral'](W.faces[1], e)
     grad, dot, div = m['grad'], m['dot'], m['div']
     u1, u2, u3, v1, v2, v3 = W.u, W.ub, W.uc, W.v, W.vb, W.vc
     F1, F2, G1, G2 = W.F, W.Fb, W.G, W.Gb
@@ -341,6 +408,23 @@ def corpus_cases(W):
         # … in one integral of a sum only
         Bi([u1], [v1], I(u1 * v1) + Ib(x * v1), 'boundary:argfree:no-trial'),
         L([v1], I(x * v1 + 1), 'test:constant'),
+        # non-linear / constant parts that cancel across two regions: rejected
+        L([v1], I(f * v1 + v1 ** 2) + Ig(x * v1 - v1 ** 2), 'cross-region-cancel:test:square'),
+        L([v1], I(f * v1 + 1) + Ig(x * v1 - 1), 'cross-region-cancel:test:constant'),
+        Bi([u1], [v1], I(u1 * v1 + y * u1 ** 2 * v1) + Ig(W.k1 * u1 * v1 - y * u1 ** 2 * v1), 'cross-region-cancel:trial:square'),
+        Bi([u1], [v1], I(u1 * v1 + f * u1 * v1 ** 2) + Ig(-f * u1 * v1 ** 2), 'cross-region-cancel:test:square'),
+        L([v1, v2], I(v1) + Ig(v1 * (v1 - v2)) + Ig2(v2 - v1 * (v1 - v2)), 'cross-region-cancel:test:diag:difference-product'),
+        L([v1], I(v1 ** 2) + Ig(x * v1), 'test:square'),
+        L([v1], I((v1 + f) ** 2 - v1 ** 2), 'test:constant'),
+        # non-linear terms that cancel inside one integrand: accepted
+        L([v1], I((v1 + f) ** 2 - v1 ** 2 - f ** 2), 'linear:cancelling-terms'),
+        L([v1], I(v1 * (v1 + x) - v1 ** 2), 'linear:cancelling-terms'),
+        L([v1], I(f * v1) + Ig((v1 + W.k1) * (v1 - W.k1) - v1 ** 2 + W.k1 ** 2 + v1), 'linear:cancelling-terms'),
+        Bi([u1], [v1], I((u1 + f) ** 2 * v1 - u1 ** 2 * v1 - f ** 2 * v1), 'linear:cancelling-terms'),
+        Bi([u1], [v1], I(u1 * v1 * (1 + y * v1) - y * u1 * v1 ** 2), 'linear:cancelling-terms'),
+        Bi([u1], [v1], I(((u1 + f) ** 2 - u1 ** 2 - f ** 2) * v1), 'linear:cancelling-terms'),
+        L([v1, v2], I((v1 + v2) ** 2 - (v1 - v2) ** 2 - 4 * v1 * v2 + dx(v2)), 'linear:cancelling-terms'),
+        L([G1], I((div(G1) + f) ** 2 - div(G1) ** 2 - f ** 2 + dot(G1, B) * (dot(G1, B) + x) - dot(G1, B) ** 2), 'linear:cancelling-terms'),
         # linear controls
         Bi([u1, u2], [v1, v2], I(u1 * v1 + dot(grad(u2), grad(v2))), 'linear'),
         Bi([u1, u2], [v1, v2], I(x * f * (u1 - u2) * v1) + Ib(u2 * v2), 'linear'),
@@ -397,6 +481,7 @@ def stream(stage, tier, seed, n, m):
     for dim in (2, 3):
         Wc = World(None, m, dim=dim)
         fixed += [(Wc, c) for c in corpus_cases(Wc)]
+    assert len(fixed) == N_CORPUS, len(fixed)
     W = None
     for i in range(n):
         if i < len(fixed):
@@ -412,7 +497,12 @@ def stream(stage, tier, seed, n, m):
         yield i, W, case, None
 
 
-N_CORPUS = 66      # 2 worlds x len(corpus_cases)
+N_CORPUS = 96      # 2 worlds x len(corpus_cases)
+
+
+def is_linear_label(label):
+    """ground truth by construction"""
+    return label == 'linear' or label.startswith('linear:')
 
 
 def built_class(label):
@@ -642,7 +732,7 @@ def oracle(ctx, factor, seeds):
         if t is None:
             o.count('truth-undecided')
             continue
-        if t != (case['label'] == 'linear'):
+        if t != is_linear_label(case['label']):
             # the numeric verdict contradicts the construction: the case is not judged (a defect of the generator,
             # never of the code under test); visible in the histogram
             o.count('construction-contradicted:' + case['label'])
@@ -711,7 +801,7 @@ def replay(ctx, path):
         return 1
     t = judged(W, case, index, m)
     print('REPLAY: built as: %s; semantic verdict (additive and homogeneous on polynomial instances): %s' % (case['label'], t))
-    if t is not None and t == (case['label'] == 'linear') and t != (verdict == 'ok'):
+    if t is not None and t == is_linear_label(case['label']) and t != (verdict == 'ok'):
         print('REPLAY: still failing')
         return 1
     print('REPLAY: the recorded case no longer fails')
